@@ -181,9 +181,30 @@ def run_case(ctx, case):
             mk, idle = mk2, idle2
         elif kind == "standalone" and case["seed"] % 3 == 1:
             # built unsubscribed, then subscribed by hand
+            cls2 = MakespanReward if order else IdleTimeReward
+            twin_reward = cls2(run.d, subscribe=False) if case["seed"] % 4 == 2 else None
             mk = MakespanReward(run.d, subscribe=False); idle = IdleTimeReward(run.d, subscribe=False)
-            for ob in ((mk, idle) if order else (idle, mk)):
-                run.d.subscribe(ob)
+            if case["seed"] % 4 == 1:
+                # ... by putting them at the head of the public `subscribers` list of a dispatcher
+                # that has already been through a reset
+                run.d.reset()
+                for ob in ((mk, idle) if order else (idle, mk)):
+                    run.d.subscribers.insert(0, ob)
+                ctx.count("reward_observers_inserted_into_the_subscribers_list")
+            else:
+                for ob in ((mk, idle) if order else (idle, mk)):
+                    run.d.subscribe(ob)
+            if case["seed"] % 4 == 2:
+                # a second, equally fresh reward observer of the same class comes and goes again
+                # before the first dispatch: the one that stays keeps receiving
+                run.d.subscribe(twin_reward)
+                run.d.unsubscribe(twin_reward)
+                if not any(x is mk for x in run.d.subscribers) or not any(x is idle for x in run.d.subscribers) \
+                        or any(x is twin_reward for x in run.d.subscribers):
+                    ctx.violation("c13_unsubscribing_a_twin_removed_another_reward_observer",
+                                  {"subscribers": [f"{type(x).__name__}@{id(x) % 9973}" for x in run.d.subscribers],
+                                   "left": f"{cls2.__name__}@{id(twin_reward) % 9973}"})
+                ctx.count("same_class_reward_twin_came_and_went")
             ctx.count("reward_observers_subscribed_by_hand")
             if run.d.subscribers.count(mk) != 1 or run.d.subscribers.count(idle) != 1:
                 ctx.violation("c13_reward_observer_subscribed_wrong_number_of_times",
